@@ -476,8 +476,7 @@ def run_ids(res, tier, seed):
         enc = {}
         for way, lst in three.items():
             if way == "store" and shared:
-                res.count("ids_store_comparison_skipped_shared_transaction_id")
-                continue
+                res.count("ids_store_comparison_with_a_transaction_id_in_two_blocks")   # (was skipped while C08-F1 was open)
             for blk in lst:
                 first = enc.setdefault(blk.hash(), (way, blk.serialize()))
                 if first[1] != blk.serialize():
